@@ -1,5 +1,7 @@
 package synth
 
+import "strings"
+
 // HandWritten returns small corner programs that the random grammar reaches only rarely.
 func HandWritten() []*Case {
 	mk := func(id, feat, pkgName, src string, other string) *Case {
@@ -12,9 +14,14 @@ func HandWritten() []*Case {
 		return c
 	}
 	withSub := func(c *Case, subName, subSrc string) *Case {
-		sub := &Pkg{Dir: subName, Name: subName, Files: []*File{{Name: "s.go", Decls: []*Decl{{Kind: "raw", Name: "s", Text: subSrc}}}}}
+		// "../mdl59": a sibling directory of the case's own directory
+		pkgName := subName
+		if strings.HasPrefix(subName, "../") {
+			pkgName = strings.TrimPrefix(subName, "../")
+		}
+		sub := &Pkg{Dir: subName, Name: pkgName, Files: []*File{{Name: "s.go", Decls: []*Decl{{Kind: "raw", Name: "s", Text: subSrc}}}}}
 		c.Subs = append(c.Subs, sub)
-		c.Main.Imports[subName] = c.PkgPath(sub)
+		c.Main.Imports[pkgName] = c.PkgPath(sub)
 		return c
 	}
 	_ = withSub
@@ -70,6 +77,9 @@ func HandWritten() []*Case {
 		mk("h56", "maps-keyed-by-an-enum-and-by-strings-with-one-element-type", "ph56", "type Level int\nconst (\n\tLow Level = iota\n\tMid\n\tHigh\n)\ntype Code string\nconst (\n\tCa Code = \"a\"\n\tCb Code = \"b\"\n)\ntype Prefs struct {\n\tId int64\n\tByLevel map[Level]string\n\tLabels map[string]string\n\tByCode map[Code]int\n\tCounts map[string]int\n}\ntype Other struct {\n\tId int64\n\tNames map[string]string\n\tPerLevel map[Level]string\n}\n", ""),
 		mk("h44", "json-column-of-recursive-named-container", "ph44", "type Tree []Tree\ntype Dict map[string]Dict\ntype T struct {\n\tId int64\n\tTree Tree\n\tDict Dict\n}\n", ""),
 		mk("h45", "enum-constants-over-two-files-with-equal-values", "ph45", "type Color int\nconst (\n\tRed Color = iota\n\tGreen\n\tBlue\n)\ntype Paint struct {\n\tC Color\n\tL Level\n}\n", "const defaultColor = Green\nconst fallbackColor Color = Red\ntype Level uint8\nconst (\n\tLow Level = iota\n\tHigh\n)\nconst levelUnset Level = 255\nconst levelDefault = Low\n"+bigPadding()),
+		mk("h58", "outer-field-with-the-go-name-of-a-promoted-field", "ph58", "type Stamps struct {\n\tID int `json:\"revision_id\"`\n\tAt string `json:\"at\"`\n}\ntype Doc struct {\n\tID int `json:\"id\"`\n\tStamps\n\tTitle string\n}\ntype Hidden struct {\n\tID int `json:\"-\"`\n\tStamps\n\tNote string\n}\n", ""),
+		withSub(mk("h57", "union-struct-embedding-a-struct-of-a-sub-package", "ph57", "type Shape interface{ isShape() }\ntype Circle struct{ R float64 }\nfunc (Circle) isShape() {}\ntype Drawing struct {\n\tmeta.Info\n\tMain Shape\n\tTitle string\n}\n", ""), "meta", "type Kind int\nconst (\n\tDraft Kind = iota\n\tFinal\n)\ntype Label string\ntype Info struct {\n\tKind Kind\n\tLabels []Label\n\tRev int\n}\n"),
+		withSub(mk("h59", "enum-of-a-sibling-package", "ph59", "type Order struct {\n\tS mdl59.Status\n\tC mdl59.Currency\n}\n", ""), "../mdl59", "type Status int\nconst (\n\tOpen Status = iota\n\tPaid\n\tClosed\n)\ntype Currency string\nconst (\n\tEur Currency = \"EUR\"\n\tUsd Currency = \"USD\"\n)\n"),
 		withSub(mk("h40", "embedded-non-struct-fields", "ph40", "type Kind int\nconst (\n\tPlain Kind = iota + 1\n\tFancy\n)\ntype Level string\nconst (\n\tLow Level = \"low\"\n\tHigh Level = \"high\"\n)\ntype Tags []string\ntype Shape struct {\n\tKind\n\tLevel\n\tTags\n\tName string\n\tAt geo.Point\n}\n", ""), "geo", "type Geometry interface{ isGeometry() }\ntype Point struct{ X, Y float64 }\nfunc (Point) isGeometry() {}\ntype Line struct{ A, B Point }\nfunc (Line) isGeometry() {}\n"),
 		withSub(mk("h38", "named-basic-first-reached-in-its-own-package", "ph38", "type Link struct {\n\tOwner own.Owner\n\tID own.ID\n}\n", ""), "own", "type ID int64\ntype Owner struct{ ID ID }\n"),
 		withSub(mk("h39", "named-basic-used-by-two-files", "ph39", "type A struct {\n\tK ids.Key\n\tL []ids.Key\n\tM map[ids.Key]ids.Name\n}\n", "type B struct {\n\tK ids.Key\n\tN ids.Name\n}\n"), "ids", "type Key int64\ntype Name string\ntype Holder struct {\n\tK Key\n\tN Name\n}\n"),
